@@ -418,6 +418,42 @@ def fullSumNat (n : Nat) (g : Int → Int → Int → Nat) : Nat :=
 def fullCount (n : Nat) (cls : Int → Int → Int → Option (Nat × Nat)) (b m : Nat) : Nat :=
   fullSumNat n (fun a bb c => if cls a bb c = some (b, m) then 1 else 0)
 
+/-- the mesh index of the conjugate mode along one axis: `-i mod n` -/
+def negIdx (n i : Nat) : Nat := (n - i) % n
+
+/-- sum of a per-mode quantity over the full `n³` mesh, by mesh indices -/
+def fullSumRat (n : Nat) (g : Nat → Nat → Nat → Rat) : Rat :=
+  ratSum ((List.range n).map fun i => ratSum ((List.range n).map fun j => ratSum ((List.range n).map fun l => g i j l)))
+
+/-! ### Legendre polynomials by Bonnet's recursion (specification side) -/
+
+def padd : List Rat → List Rat → List Rat
+  | [], q => q
+  | p, [] => p
+  | a :: p, b :: q => (a + b) :: padd p q
+
+def pscale (c : Rat) (p : List Rat) : List Rat := p.map (c * ·)
+
+/-- multiplication by `mu` -/
+def pshift (p : List Rat) : List Rat := 0 :: p
+
+/-- `P_l(mu)` as the list of coefficients of `mu^0, mu^1, …`:
+`P_0 = 1`, `P_1 = mu`, `(l+2) P_{l+2} = (2l+3) mu P_{l+1} - (l+1) P_l` -/
+def legendre : Nat → List Rat
+  | 0 => [1]
+  | 1 => [0, 1]
+  | k + 2 => pscale (1 / ((k : Rat) + 2))
+      (padd (pscale (2 * (k : Rat) + 3) (pshift (legendre (k + 1)))) (pscale (-((k : Rat) + 1)) (legendre k)))
+
+/-- a polynomial in `x = mu²` (coefficients of `x^0, x^1, …`) as a polynomial in `mu` -/
+def interleave0 : List Rat → List Rat
+  | [] => []
+  | [a] => [a]
+  | a :: t => a :: 0 :: interleave0 t
+
+/-- evaluation of an ascending coefficient list -/
+def peval (p : List Rat) (x : Rat) : Rat := p.foldr (fun c acc => c + x * acc) 0
+
 /-! ### driver -/
 
 def showRats (l : List Rat) : String := showList (l.map showRat)
